@@ -173,3 +173,30 @@ Theorem colour_key_pixel_is_transparent :
     px_a (make_transparent_px four c tol (r, g, b, a)) = 0.
 Proof. exact make_transparent_px_key. Qed.
 
+(* the layer level range check drops nothing: when a layer (or group) without a configured range is skipped because
+   its merged range does not contain the request, none of its members would have rendered it (with
+   layer_renders_when_a_member_renders: the layer range covers the union of the member ranges; hull hypothesis as
+   there) *)
+Theorem layer_skipped_only_when_no_member_renders :
+  forall members hull_ok,
+    (forallb fst members = true -> existsb snd members = true -> hull_ok = true) ->
+    layer_res_ok None members hull_ok = false -> Forall (fun m => snd m = false) members.
+Proof. exact layer_res_skip_members. Qed.
+
+(* ... and leaving out sources that are outside their own range never changes the response: anywhere in the stack
+   (any layers below and above, any request options, with or without a global clip) the merged result is the same *)
+Theorem skipping_out_of_range_sources_same_picture :
+  forall fetch n o below srcs above cov,
+    Forall (fun s => s_res_ok s = false) srcs ->
+    merge n o (rendered fetch (below ++ srcs ++ above)) cov = merge n o (rendered fetch (below ++ above)) cov.
+Proof. exact skip_out_of_range_layer. Qed.
+
+(* concurrent rendering at the picture level: LayerMerger receives the images carried by the results ThreadPool.imap
+   yields (decode: result -> layer image, None for BlankImage / a captured error); for every pool size, completion
+   order of the upstream requests and hand-over point the merged response equals the one of the sequential renderer *)
+Theorem concurrent_render_same_picture :
+  forall pool_size decode n o cov results completion_order split,
+    is_perm completion_order (length results) ->
+    merge n o (added_layers decode (fst (imap pool_size true results completion_order split))) cov =
+    merge n o (added_layers decode results) cov.
+Proof. exact concurrent_render_picture. Qed.
